@@ -136,6 +136,7 @@ def opt_tokens(rng, names):
         elif n == "spatio_temporal_constraints": v = constr_tokens(rng)
         elif n == "visual_minimal_area": v = f32tok(f32(rng.choice([0.0, 50.0, 300.0])))
         elif n in ("kalman_position_weight", "kalman_velocity_weight"): v = f32tok(f32(rng.choice([0.05, 0.1, 0.00625, 0.02])))
+        elif n == "positional_min_confidence": v = f32tok(f32(rng.choice([0.01, 0.05, 0.1, 0.45])))     # the Rust builder asserts [0.01, 1]
         else: v = f32tok(f32(rng.choice([0.0, 0.1, 0.45, 0.7])))
         out.append("%s %s" % (n, v))
     return "%d %s" % (len(names), " ".join(out))
@@ -168,10 +169,13 @@ def tracker_history(rng, kind, steps):
         out.append("py trk new %s %d %s" % (kind, nexpl, " ".join(toks)))
         max_idle = (full if nexpl > (3 if batch else 2) else dfl)[3 if batch else 2]
     else:
-        names = [n for n in OPTS if rng.random() < 0.5]
+        names = [n for n in OPTS if rng.random() < 0.5 and n not in ("visual_minimal_track_length", "visual_max_observations")]
         rng.shuffle(names)
         sh = "%d %d" % (rng.randint(1, 3), rng.randint(1, 3)) if batch else "%d" % rng.randint(1, 3)
-        out.append("py trk new %s %s %s" % (kind, sh, opt_tokens(rng, names)))
+        toks = opt_tokens(rng, names).split(" ", 1)
+        # build() asserts 0 < visual_minimal_track_length <= visual_max_observations: set the two together
+        mo = rng.randint(1, 6); tl = rng.randint(1, mo)
+        out.append("py trk new %s %s %d %s visual_max_observations %d visual_minimal_track_length %d" % (kind, sh, len(names) + 2, toks[1] if len(toks) > 1 else "", mo, tl))
         max_idle = 5
     objs = {s: [[f32(rng.uniform(0, 300)), f32(rng.uniform(0, 300)), None if rng.random() < 0.7 else f32(rng.uniform(-1, 1)), f32(rng.choice([0.5, 1.0, 2.0])), f32(rng.uniform(10, 40)),
                  rng.uniform(-4, 4), rng.uniform(-4, 4), [f32(rng.gauss(0, 1)) for _ in range(rng.choice([4, 8, 16]))]] for _ in range(rng.randint(1, 4))] for s in range(nsc)}
